@@ -65,6 +65,10 @@ type Hub struct {
 	pairingNotifications       []pairingNotification
 	pairingNotificationsActive bool
 
+	// the decision whether a new connection is kept and its registration are one step,
+	// otherwise two connections established at the same time both see no existing one
+	muxConnect sync.Mutex
+
 	muxCon        sync.Mutex
 	muxConAttempt sync.Mutex
 	muxReg        sync.Mutex
